@@ -628,13 +628,15 @@ def service_stage(c, judge):
       # it): log(0) / log of a negative number - refused, or answered completely and inside
       [{'name': 'x', 't': 'D', 'lo': 0.0, 'hi': 1.0, 'sc': 'LOG'}, {'name': 'k', 't': 'C', 'cats': ['a', 'b'], 'sc': None}],
       [{'name': 'x', 't': 'D', 'lo': -2.0, 'hi': -1.0, 'sc': 'RLOG'}, {'name': 'y', 't': 'D', 'lo': 0.0, 'hi': 1.0, 'sc': 'LIN'}],
+      # a range whose WIDTH overflows float64
+      [{'name': 'x', 't': 'D', 'lo': -1.7e308, 'hi': 1.7e308, 'sc': 'LIN'}, {'name': 'y', 't': 'D', 'lo': 0.0, 'hi': 1.0, 'sc': 'LIN'}],
       [{'name': 'x', 't': 'D', 'lo': 0.0, 'hi': 1e39, 'sc': 'LIN'}, {'name': 'y', 't': 'D', 'lo': 0.0, 'hi': 1.0, 'sc': 'LIN'}],
       [{'name': 'x', 't': 'D', 'lo': -3e38, 'hi': 3e38, 'sc': 'LIN'}, {'name': 'y', 't': 'D', 'lo': 0.0, 'hi': 1.0, 'sc': 'LIN'}],
       [{'name': 'x', 't': 'D', 'lo': 1e-50, 'hi': 1e-40, 'sc': 'LOG'}, {'name': 'y', 't': 'D', 'lo': 0.0, 'hi': 1.0, 'sc': 'LIN'}],
       [{'name': 'x', 't': 'D', 'lo': 1e300, 'hi': 1.5e300, 'sc': 'LIN'}, {'name': 'k', 't': 'C', 'cats': ['a', 'b'], 'sc': None}],
   ]
-  for ei, space in enumerate(extreme if not quick else extreme[:5]):
-    for algo in FAST_ALGOS + (['GAUSSIAN_PROCESS_BANDIT'] if (not quick and ei in (0, 2)) else []):
+  for ei, space in enumerate(extreme if not quick else extreme[:6]):
+    for algo in FAST_ALGOS + (['GAUSSIAN_PROCESS_BANDIT'] if (not quick and ei in (0, 3)) else []):
       out = run_study(c, judge, algo, space, 2, [2, 1], note=':float64-only-range')
       record(algo, out, space)
       c.count(1, ('extreme-range', algo, ei), kind='extreme-range:' + algo)
